@@ -382,7 +382,7 @@ impl ByteArrayDecoderPlain {
         output.offsets.reserve(to_read);
 
         let remaining_bytes = self.buf.len() - self.offset;
-        if remaining_bytes == 0 {
+        if remaining_bytes == 0 || to_read == 0 {
             return Ok(0);
         }
 
